@@ -9,3 +9,8 @@ package esm
 //@   property C15
 //@   modifies nothing
 //@   nopanic
+
+// Genesis import (C20): whatever state an export produced, importing it never panics.
+//@ func InitGenesis
+//@   property C20
+//@   nopanic
